@@ -24,7 +24,7 @@ import (
 )
 
 func init() {
-	factGens = append(factGens, genAtomicFacts, genCacheCtxFacts, genAuthFacts)
+	factGens = append(factGens, genAtomicFacts, genCacheCtxFacts, genCacheCommitFacts, genAuthFacts)
 }
 
 func xbNodeText(fset *token.FileSet, n ast.Node) string {
@@ -325,6 +325,144 @@ func genCacheCtxFacts(repo string, emit func(name, leanDef string, err error)) {
 		rows = append(rows, fmt.Sprintf("(%q, %s)", m[1], leanStrList(calls)))
 	}
 	emit("cacheCtxCalls", "/-- callees that run on the function's cache context (first argument or receiver is the variable bound by `… := ctx.CacheContext()`), in source order; [] = no cache context -/\ndef cacheCtxCalls : List (String × List String) := ["+strings.Join(rows, ", ")+"]", ferr)
+}
+
+// cacheCommitDecision describes, for one `X, W := ….CacheContext()` in fd, how the commit W() is decided:
+//
+//	discarded                          W is `_`
+//	inline:<n>                         n plain calls W() in straight-line code (failing paths return/continue before them)
+//	deferred:<V>:<named-result|local>:shadows=<k>:bare-returns=<m>
+//	                                   W() sits in a deferred closure under `if V == nil`; k = number of `:=` (re)declarations of V
+//	                                   in the function after the CacheContext call and outside that closure (each hides the variable
+//	                                   the closure looks at); for a local (non-result) V, m = number of `return …, <expr>` whose last
+//	                                   expression is not V itself and not nil (such a return does not assign V)
+func cacheCommitDecisions(fd *ast.FuncDecl) []string {
+	var out []string
+	named := map[string]bool{}
+	if fd.Type.Results != nil {
+		for _, f := range fd.Type.Results.List {
+			for _, n := range f.Names {
+				named[n.Name] = true
+			}
+		}
+	}
+	ast.Inspect(fd.Body, func(n ast.Node) bool {
+		as, ok := n.(*ast.AssignStmt)
+		if !ok || len(as.Lhs) != 2 || len(as.Rhs) != 1 {
+			return true
+		}
+		c, ok := as.Rhs[0].(*ast.CallExpr)
+		if !ok || xbCalleeName(c) != "CacheContext" {
+			return true
+		}
+		w := exprText(as.Lhs[1])
+		if w == "_" {
+			out = append(out, "discarded")
+			return true
+		}
+		start := as.End()
+		// deferred closure calling W under `if V == nil`
+		var deferred *ast.FuncLit
+		condVar := ""
+		inline := 0
+		ast.Inspect(fd.Body, func(m ast.Node) bool {
+			if d, ok := m.(*ast.DeferStmt); ok && d.Pos() > start {
+				if fl, ok := d.Call.Fun.(*ast.FuncLit); ok {
+					ast.Inspect(fl.Body, func(x ast.Node) bool {
+						ifs, ok := x.(*ast.IfStmt)
+						if !ok {
+							return true
+						}
+						be, ok := ifs.Cond.(*ast.BinaryExpr)
+						if !ok || be.Op != token.EQL || exprText(be.Y) != "nil" {
+							return true
+						}
+						ast.Inspect(ifs.Body, func(y ast.Node) bool {
+							if cc, ok := y.(*ast.CallExpr); ok && exprText(cc.Fun) == w {
+								deferred = fl
+								condVar = exprText(be.X)
+							}
+							return true
+						})
+						return true
+					})
+				}
+				return false
+			}
+			if cc, ok := m.(*ast.CallExpr); ok && exprText(cc.Fun) == w && cc.Pos() > start {
+				inline++
+			}
+			return true
+		})
+		if deferred == nil {
+			out = append(out, fmt.Sprintf("inline:%d", inline))
+			return true
+		}
+		shadows, bare := 0, 0
+		ast.Inspect(fd.Body, func(m ast.Node) bool {
+			if m == deferred {
+				return false
+			}
+			switch t := m.(type) {
+			case *ast.AssignStmt:
+				if t.Tok == token.DEFINE && t.Pos() > start {
+					for _, l := range t.Lhs {
+						if exprText(l) == condVar {
+							shadows++
+						}
+					}
+				}
+			case *ast.ReturnStmt:
+				if !named[condVar] && t.Pos() > start && len(t.Results) > 0 {
+					last := exprText(t.Results[len(t.Results)-1])
+					if last != condVar && last != "nil" {
+						bare++
+					}
+				}
+			case *ast.FuncLit:
+				return false // returns of nested closures are not returns of fd
+			}
+			return true
+		})
+		kind := "local"
+		if named[condVar] {
+			kind = "named-result"
+		}
+		out = append(out, fmt.Sprintf("deferred:%s:%s:shadows=%d:bare-returns=%d", condVar, kind, shadows, bare))
+		return true
+	})
+	return out
+}
+
+func genCacheCommitFacts(repo string, emit func(name, leanDef string, err error)) {
+	var rows [][2]string
+	var werr error
+	for _, root := range []string{"x", "precompiles", "app/ante"} {
+		_ = filepath.Walk(filepath.Join(repo, root), func(p string, info os.FileInfo, err error) error {
+			if err != nil || info.IsDir() || !strings.HasSuffix(p, ".go") || strings.HasSuffix(p, "_test.go") || strings.HasSuffix(p, ".pb.go") || strings.HasSuffix(p, ".pb.gw.go") {
+				return nil
+			}
+			fset := token.NewFileSet()
+			f, e := parser.ParseFile(fset, p, nil, 0)
+			if e != nil {
+				werr = e
+				return nil
+			}
+			rel, _ := filepath.Rel(repo, p)
+			for _, d := range f.Decls {
+				fd, ok := d.(*ast.FuncDecl)
+				if !ok || fd.Body == nil {
+					continue
+				}
+				for _, dec := range cacheCommitDecisions(fd) {
+					rows = append(rows, [2]string{rel + ":" + fd.Name.Name, dec})
+				}
+			}
+			return nil
+		})
+	}
+	sort.SliceStable(rows, func(i, j int) bool { return rows[i][0] < rows[j][0] })
+	emit("cacheCommitDecisions", "/-- for every `X, W := ….CacheContext()` in x/, precompiles/, app/ante: how the commit W() is decided (inline call after the failing paths returned; or a deferred closure conditioned on a variable — named result or local —, with the number of `:=` redeclarations that hide that variable and of returns that do not assign it) -/\ndef cacheCommitDecisions : List (String × String) := "+xbLeanPairList(rows, "str"), werr)
 }
 
 func genAuthFacts(repo string, emit func(name, leanDef string, err error)) {
